@@ -493,3 +493,34 @@ def check_write_fasta(facts, chk, rule):
         chk.violation(rule, key, where=MSA + '::write_fasta', evals=nrun, detail='(samples, rows)=%s: %s' % bad[0])
     else:
         chk.ok(rule, key, MSA + '::write_fasta', 'record i = (names[i], column i of the base matrix) in sample order for 1..4 samples x 0..5 rows (%d runs)' % nrun, evals=nrun)
+
+
+def check_apply_filters(facts, chk, rule, tier):
+    """generic_modes::apply_filters (the hand-over from the CLI values to filter): threshold = ceil(n * min_freq), every flag
+    reaches filter unchanged - decided functionally on tables incl. rows whose only bases are ambiguity codes"""
+    import math
+    key = '%s:apply_filters' % rule
+    alpha = 'AC-NR'
+    bad = []
+    nrun = 0
+    for n in ((2, 3) if tier != 'thorough' else (1, 2, 3)):
+        t = tables(alpha if n < 3 else 'AC-R', n)
+        for mf in sorted({0.0, 0.2, 1.0 / n, 0.5, 0.9, 1.0}):
+            for ft in FILTERS:
+                for faam, mask, icg in itertools.product((0, 1), repeat=3):
+                    if tier != 'thorough' and (mask and icg):
+                        continue
+                    arr = mk_array(facts, t, [2] * len(t.rows))
+                    I = Interp(facts, {'IntT': 'u64'})
+                    r = I.call_fn('generic_modes::apply_filters', [RefV(arr), float(mf), BV(1, faam), filter_type(facts, ft), BV(1, mask), BV(1, icg)])
+                    nrun += 1
+                    names, kmers, rows, counts, ncols = read_array(facts, arr)
+                    want, wc, wrem = spec_filter(t, math.ceil(n * mf), faam, ft, mask, icg)
+                    if rows != [b for _, b in want.rows] or r.val != wrem or names != t.names:
+                        got = set(rows)
+                        ws = set(b for _, b in want.rows)
+                        bad.append((dict(samples=n, min_freq=mf, filter=ft, filter_ambig_as_missing=faam, ambig_mask=mask, no_gap_only=icg), sorted(got ^ ws)[:4]))
+    if bad:
+        chk.violation(rule, key, where='generic_modes::apply_filters', evals=nrun, detail='%d of %d configurations differ; first: %s: rows in one result only %s' % (len(bad), nrun, bad[0][0], bad[0][1]))
+    else:
+        chk.ok(rule, key, 'generic_modes::apply_filters', 'apply_filters == table model with threshold ceil(n x min_freq) and every flag handed over unchanged (%d configurations)' % nrun, evals=nrun)
